@@ -95,7 +95,7 @@ fn enumerate_c01(cli: &Cli, r: &Report, prop: &str) {
                     for &n in counts {
                         let thread_dim: &[usize] = if entry % 2 == 1 { &[1, 2, 3] } else { &[1] };
                         for &threads in thread_dim {
-                            let counter_dim: &[u8] = if entry >= 2 { &[0, 1, 3] } else { &[0] };
+                            let counter_dim: &[u8] = if entry >= 2 { &[0, 1, 3, 12, 15] } else { &[0] };
                             for &input_counters in counter_dim {
                                 let mut base = LoopCase::basic(entry, ishape, oshape);
                                 base.test = mode == 2;
@@ -154,7 +154,7 @@ fn enumerate_c01(cli: &Cli, r: &Report, prop: &str) {
     r.set_bounds(json!({
         "entries": 6, "input_shapes": 4, "output_shapes": 4, "sample_size": sizes, "sample_count": counts,
         "modes": ["explicit","tuned(0,1,2 doublings)","test"], "local_thread_counts": [1,2,3],
-        "input_counters": ["none","bytes","bytes+items"],
+        "input_counters": ["none","bytes","bytes+items","chars+cycles","all four kinds"],
         "panic_points": "site in {generator,input_counter,benched,drop_output,drop_input} x nth in {0,1,last} (thorough: +2,3,mid) on the caller",
         "threads": "T=1 here (T>1 for _local only, which must stay on the caller); T in {2,3} under loom (engine L)"
     }));
